@@ -1,4 +1,4 @@
 INIT GenInit
 NEXT GenNext
-CONSTANTS MaxCells = 12000 MaxKLCells = 1500 Thin = 3
+CONSTANTS MaxCells = 12000 MaxKLCells = 1500 Thin = 7
 CHECK_DEADLOCK FALSE
